@@ -32,6 +32,11 @@ CLAIMED = {
         "For every NUL-free value of up to 4 bytes (5 thorough): dulwich reads back what it writes; git's reader (reference model) reads the same value from what dulwich writes; dulwich reads what git's writer (reference model) produces; subsection names of up to 3 bytes survive escaping and the section-header parser; a ConfigFile with a single- and a multi-valued key survives write_to_file/from_file with order kept; name rules equal git's. Reference models validated against the installed git binary. Three genuine defects found by this check were repaired (fix: commits 8f76b79, f15a11c, 8bfa6ad).",
         "Trusted: z3, ksym, the git reference models (validated against git 2.39.5).",
     ),
+    "C13": (
+        "bounded symbolic execution of the real graph/walk code (ksym): DAG shapes forked by the solver, commit timestamps symbolic integers, oracle = graph-theoretic reference",
+        "For every DAG on up to 4 commits (5 thorough) and every pair of query commits, with commit timestamps as symbolic integers in [-2^40,2^40] (the code only compares/negates them, so all orderings incl. ties, backwards and negative clocks are covered): _find_lcas/find_merge_base return exactly the maximal common ancestors, can_fast_forward(a,b) <=> a is an ancestor of b, independent/find_octopus_base (thorough) are exact; Walker yields exactly the reachable set once each in date and topo order (never a parent before its child), and reachable(include)-reachable(exclude) under monotone clocks. Three genuine defects found by this check were repaired (fix: commits 77392fb, 0225633, 3a70501).",
+        "Trusted: z3, ksym, CPython. Commits are real Commit objects with fixed ids in a dict-backed store (no serialisation); heapq runs natively on the proxies' comparison protocol.",
+    ),
 }
 
 NOT_YET = "check not built yet in this round (planned in DESIGN.md section 4); no claim is made"
